@@ -164,7 +164,8 @@ Forget(k, reason) ==
 
 \* maintenance at quiescence: forgets (for capacity) until the resident cost fits
 Maintain(S) ==
-  /\ Bounded /\ ~quiet
+  /\ ~quiet
+  /\ S # {} => Bounded
   /\ S \subseteq {k \in K : Present(live, k)}
   /\ CapacityOK(ForgetAll(live, S))
   /\ live' = ForgetAll(live, S)
@@ -172,7 +173,7 @@ Maintain(S) ==
   /\ notified' = notified \cup {live[k].wid : k \in S}
   /\ dup' = (dup \/ \E k \in S : live[k].wid \in notified)
   /\ forgot' = forgot \cup S
-  /\ quiet' = TRUE
+  /\ quiet' = Bounded
   /\ obs' = NoObs
   /\ UNCHANGED <<cfg, now, aux, nextw, last>>
 
